@@ -309,6 +309,8 @@ fn try_answer(toks: &[&str]) -> Option<String> {
       let v = hook::rune_id_load((p(b)?, p(t)?));
       format!("{} {}", v.block, v.tx)
     }
+    ["storage.rune.store", n] => ord::index::verif::rune_store(Rune(p(n)?)).to_string(),
+    ["storage.rune.load", n] => ord::index::verif::rune_load(p(n)?).0.to_string(),
     ["storage.runeentry.store", bl, bu, d, e, mi, nu, pr, ru, sp, sy, te, ti, tu] => {
       let entry = RuneEntry {
         block: p(bl)?,
@@ -600,6 +602,13 @@ fn emit_insid(rng: &mut Rng, out: &mut Streams) {
   oracle_rt(out, "insid", &x, &back);
 }
 
+fn emit_rune(rng: &mut Rng, out: &mut Streams) {
+  let x = uint(rng, 128).to_string();
+  let st = ask(out, &format!("storage.rune.store {x}"));
+  let back = ask(out, &format!("storage.rune.load {st}"));
+  oracle_rt(out, "rune", &x, &back);
+}
+
 fn emit_runeid(rng: &mut Rng, out: &mut Streams) {
   let x = format!("{} {}", uint(rng, 64), uint(rng, 32));
   let st = ask(out, &format!("storage.runeid.store {x}"));
@@ -815,6 +824,7 @@ pub fn generate(args: &Args, rng: &mut Rng, out: &mut Streams, dist: &mut Dist) 
       5 => {
         emit_insid(rng, out);
         emit_runeid(rng, out);
+        emit_rune(rng, out);
       }
       6 => emit_rune_entry(rng, out, dist),
       7 => emit_ins_entry(rng, out, dist),
